@@ -183,6 +183,9 @@ def svd_case(st, opts):
     shape = [n] * d
     variants.append(("plain", superdiag(sig, shape), "tt", shape, [], torch.float64, None))
     variants.append(("numpy", superdiag(sig, shape).numpy(), "tt", shape, [], torch.float64, None))
+    # the bounds are relative to the norm of the input: a tensor of tiny (or huge) magnitude is an input like any other
+    variants.append(("tiny", superdiag(sig, shape) * 1e-20, "tt", shape, [], torch.float64, None))
+    variants.append(("huge", superdiag(sig, shape) * 1e20, "tt", shape, [], torch.float64, None))
     if d >= 3 and n > 1:
         s1 = list(shape); s1[1 + (seed % (d - 2))] = 1
         variants.append(("singleton", superdiag(sig, s1), "tt", s1, [], torch.float64, None))
@@ -302,7 +305,7 @@ def round_case(st, opts):
         rm = int(caps[0])
     else:
         rm = [1] + [int(c) if c < BIG else 10 ** 6 for c in caps] + [1]
-    variants = [("plain", torch.float64, "tt", 1.0), ("scaled", torch.float64, "tt", 1e4), ("complex", torch.complex128, "tt", 1.0),
+    variants = [("plain", torch.float64, "tt", 1.0), ("scaled", torch.float64, "tt", 1e4), ("tiny", torch.float64, "tt", 1.0), ("complex", torch.complex128, "tt", 1.0),
                 ("operator", torch.float64, "ttm", 1.0), ("float32", torch.float32, "tt", 1.0)]
     for name, dt, kind, scale in variants:
         P = mkP(name)
@@ -310,6 +313,8 @@ def round_case(st, opts):
         X = build_tt_with_spectrum(tt, sig, d, n, infl, gen, dt, kind, scale)
         if name == "complex":
             X = X * complex(0.6, 0.8)
+        if name == "tiny":
+            X = tt.TT([X.cores[0] * 1e-20] + [c.clone() for c in X.cores[1:]])
         dense = project.dense(X.cores)
         snap = algrun.snapshot([X])
         Rin = [int(r) for r in X.R]
